@@ -40,3 +40,13 @@ def run(rep: Report, repo: Repo, tier: str) -> None:
         writer_rules.rule_values_verbatim(rep, repo, "C07-R8")
     with rep.isolated():
         render.rule_no_line_breaks_introduced(rep, repo, "C07-R9")
+    # argument values reach the entries as written: the listener introduces no line break of its own either
+    with rep.isolated():
+        bindings.rule_set_partition(rep, repo, "C07-R10")
+    # in stdout mode the page is the only thing on stdout: no info-level record from the pipeline precedes the title
+    from . import pathterms, fsrules
+    with rep.isolated():
+        pathterms.rule_stdout_branch(rep, repo, "C07-R11")
+    # the page of a module is the last writer of its file (a module named index.cmake shares <dir>/index.rst with the index)
+    with rep.isolated():
+        fsrules.rule_index_before_pages(rep, repo, "C07-R12")
